@@ -297,6 +297,9 @@ def _extra_external(interp, key: str):
              "typing.cast": lambda t, v: v, "collections.namedtuple": _BUILTINS["namedtuple"]}
     if key in table:
         return table[key]
+    if key == "numpy":
+        from .npmodel import module as _np_module
+        return _np_module()
     # pure text helpers of the standard library (functions of their arguments only)
     pure = {"xml.sax.saxutils": ("escape", "unescape", "quoteattr"), "html": ("escape", "unescape"), "shlex": ("quote",),
             "urllib.parse": ("quote", "unquote")}
